@@ -338,6 +338,14 @@ func evalT(t *Term, env map[string]*big.Rat) *big.Rat {
 		return s
 	case "conv":
 		return evalT(t.Args[0], env)
+	case "call":
+		if t.S == "intdiv" && len(t.Args) == 2 {
+			a, b := evalT(t.Args[0], env), evalT(t.Args[1], env)
+			if a.IsInt() && b.IsInt() && b.Sign() != 0 {
+				q := new(big.Int).Quo(a.Num(), b.Num()) // Go's integer division truncates toward zero
+				return new(big.Rat).SetInt(q)
+			}
+		}
 	}
 	if v, ok := env[t.Key()]; ok {
 		return v
